@@ -81,15 +81,17 @@ Qed.
 Lemma vert_chunk_ok o h st ps :
   len ps < 4294967296 -> 0 <= r_nvr st -> r_nvr st + len ps <= h_nv h -> h_nv h < 18446744073709551616 ->
   o_dim o = h_dim h -> 1 <= h_dim h ->
-  Forall (pos_ok (Z.to_nat (h_dim h))) ps ->
+  Forall (pos_ok (Z.to_nat (h_dim h))) ps -> len (vert_payload (r_nvr st) ps) < max_payload ->
   read_vertices_chunk o h st (vert_payload (r_nvr st) ps) = Ret (add_verts (len ps) ps st, []).
 Proof.
-  intros Hlen Hr0 Hr1 Htot Hdim Hd1 Hps.
+  intros Hlen Hr0 Hr1 Htot Hdim Hd1 Hps Hpl.
   pose proof (len_nonneg ps) as Hn0.
-  unfold vert_payload, read_vertices_chunk.
+  unfold vert_payload in *. unfold read_vertices_chunk.
   remember (concat (map enc_pos ps)) as data eqn:Edata.
   assert (Ld : len data = len ps * (8 * h_dim h)).
   { subst data. rewrite (len_enc_positions _ _ Hps). rewrite Z2Nat.id by lia. reflexivity. }
+  assert (Hsz : len ps * (8 * h_dim h) < 4611686018427387904).
+  { unfold max_payload in Hpl. revert Hpl. lens. rewrite <- Ld. pose proof (len_nonneg data). zlia. }
   rewrite need_ok by (unfold ovmb_size_VertexChunkHeader; lenlia).
   cb. rewrite rd_span_app by lia. cb.
   rewrite rd_enum8_cons by reflexivity. cb.
@@ -97,6 +99,7 @@ Proof.
   change (is_valid_VertexEncoding VertexEncoding_Double) with true. cb.
   rewrite validate_span_val by lia. cb.
   change (elem_size_VertexEncoding VertexEncoding_Double) with 8.
+  rewrite vert_product_small by nia.
   rewrite (eqb_true (len data)) by lia. cb.
   change (VertexEncoding_Double =? VertexEncoding_None) with false. cbv iota.
   rewrite Hdim. rewrite <- (app_nil_r data) at 2. rewrite Edata at 2.
